@@ -11,7 +11,7 @@ use super::*;
 use crate::lexer::verif_h::any_token;
 use crate::lexer::{LiteralKind, Token, TokenKind};
 use crate::parser::verif_h::{instr_token, label_token, lit_token, reg_token, set_simple_tokens, trap_token};
-use crate::runtime::verif_h::{any_state, assert_unchanged, exec_calls, exec_instr, exec_pc, orig_of, peek, snap};
+use crate::runtime::verif_h::{any_exec_effect, any_state, assert_unchanged, exec_calls, exec_instr, exec_pc, orig_of, peek, snap};
 use crate::symbol::verif_h::{any_flag, any_register, any_trap_kind, table_put};
 use crate::symbol::{Flag, InstrKind, Register, TrapKind};
 use crate::verif_h::{capture, fits_signed, stubs};
@@ -39,8 +39,12 @@ fn rn(r: Register) -> u16 {
 }
 
 /// run eval_inner on the tokens; returns (machine snapshot comparison is done by the caller)
+static mut EFFECT: (u16, u16, u16) = (0, 0, 0);
 fn run_eval(s: &mut RunState, toks: Vec<Token>) -> bool {
     set_simple_tokens(toks);
+    unsafe {
+        EFFECT = any_exec_effect();
+    }
     let r = eval_inner(s, "x");
     let ok = r.is_ok();
     core::mem::forget(r);
@@ -62,7 +66,12 @@ fn expect_executed(s: &RunState, pre: &crate::verif_h::Snap, _probe: u16, _pre_p
     assert!(exec_calls() == 1, "eval did not execute the instruction exactly once");
     assert!(exec_instr() == word, "eval executed another encoding than the instruction it was given");
     assert!(exec_pc() == pre.pc, "eval moved the PC before executing");
-    regs_unchanged(s, pre);
+    // the machine is exactly what the execution left: pre-state plus the recorder's arbitrary effect
+    let (new_pc, reg, val) = unsafe { EFFECT };
+    let mut want = *pre;
+    want.pc = new_pc;
+    want.r[reg as usize] = val;
+    regs_unchanged(s, &want);
 }
 fn expect_refused(s: &RunState, pre: &crate::verif_h::Snap, _probe: u16, _pre_probe: u16) {
     assert!(exec_calls() == 0, "eval executed something it must refuse");
@@ -241,44 +250,21 @@ eval_attrs! { fn c15_eval_not_an_instruction() {
     kani::cover!(matches!(t.kind, TokenKind::Dir(_)));
 }}
 
-// ---- jumps with the REAL execute: "the PC changes only if the instruction is itself a jump", and a jump does
-// change it: RET / JMP r / JSRR r through the real VM (traps and the stack extension cut: not reachable from
-// these mnemonics), compared with the reference step at the *current* PC.
-fn cut_trap(_s: &mut RunState, _instr: u16) {
-    kani::assume(false);
-}
-fn cut_stack(_s: &mut RunState, _instr: u16) {
-    kani::assume(false);
-}
-macro_rules! eval_jump {
-    ($name:ident, $kind:expr, $with_reg:expr, |$r:ident| $word:expr) => {
-        #[kani::proof]
-        #[kani::unwind(9)]
-        #[kani::stub(alloc::fmt::format, stubs::fmt_format)]
-        #[kani::stub(crate::symbol::with_symbol_table, stubs::with_symbol_table)]
-        #[kani::stub(crate::output::Output::print_fmt, crate::output::verif_h::print_fmt_count)]
-        #[kani::stub(crate::parser::AsmParser::new_simple, crate::parser::verif_h::new_simple_from_tokens)]
-        #[kani::stub(crate::runtime::RunState::trap, cut_trap)]
-        #[kani::stub(crate::runtime::RunState::stack, cut_stack)]
-        #[kani::stub(crate::error::parse_generic_unexpected, crate::parser::verif_h::generic_unexpected_contract)]
-        #[kani::stub(crate::error::parse_lit_range, crate::parser::verif_h::lit_range_contract)]
-        #[kani::stub(crate::error::parse_eof, crate::parser::verif_h::eof_contract)]
-        #[kani::stub(std::process::exit, crate::verif_h::exits::never)]
-        fn $name() {
-            let mut s = any_state();
-            let $r = any_register();
-            let toks = if $with_reg { vec![instr_token($kind), reg_token($r)] } else { vec![instr_token($kind)] };
-            let probe: u16 = kani::any();
-            let pre = snap(&s);
-            let pre_probe = peek(&s, probe);
-            let word: u16 = $word;
-            let e = crate::verif_h::step(&pre, word, false, |a| peek(&s, a)).unwrap();
-            let ok = run_eval(&mut s, toks);
-            assert!(ok, "well-formed jump refused by eval");
-            crate::runtime::verif_h::assert_effect(&s, &e, probe, pre_probe);
-            kani::cover!(e.pc != pre.pc, "the jump moves the PC");
-        }
+// ---- jumps: RET / JMP r / JSRR r are executed like anything else (exactly their encoding, once), and what the
+// execution does to the PC stays (the recorder's arbitrary new PC survives: eval does not "restore" anything)
+eval_attrs! { fn c15_eval_jumps() {
+    let mut s = any_state();
+    let r = any_register();
+    let which: u8 = kani::any();
+    kani::assume(which < 3);
+    let pre = snap(&s);
+    let (toks, word) = match which {
+        0 => (vec![instr_token(InstrKind::Ret)], 0xC1C0),
+        1 => (vec![instr_token(InstrKind::Jmp), reg_token(r)], 0xC000 + rn(r) * 64),
+        _ => (vec![instr_token(InstrKind::Jsrr), reg_token(r)], 0x4000 + rn(r) * 64),
     };
-}
-eval_jump!(c15_eval_ret_real, InstrKind::Ret, false, |r| 0xC1C0 + rn(r) * 0);
-eval_jump!(c15_eval_jmp_real, InstrKind::Jmp, true, |r| 0xC000 + rn(r) * 64);
+    let _ = run_eval(&mut s, toks);
+    expect_executed(&s, &pre, 0, 0, word);
+    kani::cover!(which == 0);
+    kani::cover!(which == 2 && rn(r) == 7);
+}}
